@@ -1,8 +1,448 @@
-/- Driver handler owned by property C08: `c08 <args…>` requests. -/
+/-
+  Driver handler owned by property C08: `c08 <args…>` requests.
+
+    c08 run <hex sexp> <fuel> <a>,<b>,<c> [<a>,<b>,<c>]…   →  <answer> [| <answer>]…
+        one call of `main(a: i32, b: i32, c: bool)` per tuple (c is 0/1), on the
+        executable order specification `RotoV.TraceSpec.run`
+        <answer> ::= <outcome> ; <event> <event> …
+        <outcome> ::= ok <val> | fuel | stuck <why>
+        <event>  ::= <fn>(<val>,<val>…)
+        <val>    ::= <int> | true | false | u | s<hex> | none | some:<int> | [<int>;…]
+                   | acc:<int> | rej:<int> | rec[..] | enm<k>[..]
+    c08 mir <hex sexp>   →  <fn 0> || <fn 1> || … (main last), each  ok <tmp_idx> | <block 0> | <block 1> …   or   outside
+        the structured lowering model (`RotoV.LowerS.lowerBlock` of main's body, then `return`)
+        laid out as a CFG: instructions `a <var> = <value>`, `r <var>`, `j <block>`,
+        `s <var> <k> <block> <default block>` separated by `;`. `outside`: main uses a
+        construct the model does not cover. The harness canonicalises this and the real
+        compiler's MIR dump (hook verif_hooks::c08) the same way and compares them.
+
+  Program s-expressions (printed by harness/src/c08/ast.rs):
+    prog ::= (prog fn…)                 the last function is main
+    fn   ::= (fn (x…) blk)
+    blk  ::= (blk item…)    item ::= (let x e) | (do e) | (last e)
+    e    ::= (int n) | (bool 0|1) | (unit) | (var x) | (host f e…) | (call f e…)
+           | (bin op e e) | (and e e) | (or e e) | (not e) | (neg e)
+           | (ite e blk blk) | (if1 e blk) | (match opt|enm e arm…) | (while e blk) | (for x e blk)
+           | (block blk) | (set x e) | (cset op x e) | (ret e) | (accept e) | (reject e)
+           | (try e) | (some e) | (none) | (ctor k e…) | (record e…) | (field e i)
+           | (list e…) | (fstr part…) | (concat e e)
+    arm  ::= (arm pat blk) | (armg pat e blk)      pat ::= (v k x…) | (wild)
+    part ::= (s x<hex>) | (e e)
+-/
 import Driver.Util
+import RotoV.Model.TraceSpec
+import RotoV.Model.LowerS
 
 namespace Driver.C08
+open RotoV RotoV.TraceSpec
 
-def handle (_args : List String) : String := "bad-op"
+inductive Sexp
+  | atom (s : String)
+  | list (xs : List Sexp)
+  deriving Inhabited
+
+def tokens (s : String) : List String :=
+  let step (acc : List String × String) (c : Char) : List String × String :=
+    let (out, cur) := acc
+    let flush := if cur.isEmpty then out else cur :: out
+    if c = '(' then ("(" :: flush, "")
+    else if c = ')' then (")" :: flush, "")
+    else if c = ' ' || c = '\n' || c = '\t' then (flush, "")
+    else (out, cur.push c)
+  let (out, cur) := s.foldl step ([], "")
+  (if cur.isEmpty then out else cur :: out).reverse
+
+partial def parseSexp : List String → Option (Sexp × List String)
+  | [] => none
+  | "(" :: rest =>
+    let rec go (ts : List String) (acc : List Sexp) : Option (Sexp × List String) :=
+      match ts with
+      | [] => none
+      | ")" :: rest => some (.list acc.reverse, rest)
+      | ts => match parseSexp ts with
+        | some (x, rest) => go rest (x :: acc)
+        | none => none
+    go rest []
+  | ")" :: _ => none
+  | a :: rest => some (.atom a, rest)
+
+def parseOp : String → Option BinOp
+  | "add" => some .add | "sub" => some .sub | "mul" => some .mul
+  | "eq" => some .eq | "ne" => some .ne | "lt" => some .lt
+  | "le" => some .le | "gt" => some .gt | "ge" => some .ge
+  | _ => none
+
+def hexString (s : String) : Option String := do
+  let bytes ← unhex s
+  String.fromUTF8? (ByteArray.mk bytes.toArray)
+
+def atomNat : Sexp → Option Nat
+  | .atom a => a.toNat?
+  | _ => none
+
+def natList : List Sexp → Option (List Nat)
+  | [] => some []
+  | x :: xs => do
+    let n ← atomNat x
+    let ns ← natList xs
+    pure (n :: ns)
+
+def toPat : Sexp → Option Pat
+  | .list [.atom "wild"] => some .wild
+  | .list (.atom "v" :: k :: bs) => do
+    let k ← atomNat k
+    let bs ← natList bs
+    pure (.variant k bs)
+  | _ => none
+
+mutual
+partial def toExpr : Sexp → Option Expr
+  | .list [.atom "int", .atom n] => do
+    let v ← n.toInt?
+    pure (.lit (.int v))
+  | .list [.atom "bool", .atom b] => if b = "1" then some (.lit (.bool true)) else if b = "0" then some (.lit (.bool false)) else none
+  | .list [.atom "unit"] => some (.lit .unit)
+  | .list [.atom "var", .atom x] => x.toNat?.map .var
+  | .list (.atom "host" :: .atom f :: args) => do
+    let f ← f.toNat?
+    let as ← toExprs args
+    pure (.host f as)
+  | .list (.atom "call" :: .atom f :: args) => do
+    let f ← f.toNat?
+    let as ← toExprs args
+    pure (.call f as)
+  | .list [.atom "bin", .atom op, l, r] => do
+    let op ← parseOp op
+    let l ← toExpr l
+    let r ← toExpr r
+    pure (.bin op l r)
+  | .list [.atom "and", l, r] => do pure (.and (← toExpr l) (← toExpr r))
+  | .list [.atom "or", l, r] => do pure (.or (← toExpr l) (← toExpr r))
+  | .list [.atom "not", e] => do pure (.not (← toExpr e))
+  | .list [.atom "neg", e] => do pure (.neg (← toExpr e))
+  | .list [.atom "ite", c, t, e] => do pure (.ite (← toExpr c) (← toBlock t) (← toBlock e))
+  | .list [.atom "if1", c, t] => do pure (.if1 (← toExpr c) (← toBlock t))
+  | .list (.atom "match" :: .atom ty :: s :: arms) => do
+    let isOpt ← if ty = "opt" then some true else if ty = "enm" then some false else none
+    pure (.mtch (← toExpr s) isOpt (← toArms arms))
+  | .list [.atom "while", c, b] => do pure (.while (← toExpr c) (← toBlock b))
+  | .list [.atom "for", .atom x, l, b] => do pure (.for (← x.toNat?) (← toExpr l) (← toBlock b))
+  | .list [.atom "block", b] => do pure (.block (← toBlock b))
+  | .list [.atom "set", .atom x, e] => do pure (.assign (← x.toNat?) (← toExpr e))
+  | .list [.atom "cset", .atom op, .atom x, e] => do pure (.cassign (← parseOp op) (← x.toNat?) (← toExpr e))
+  | .list [.atom "ret", e] => do pure (.ret (← toExpr e))
+  | .list [.atom "accept", e] => do pure (.accept (← toExpr e))
+  | .list [.atom "reject", e] => do pure (.reject (← toExpr e))
+  | .list [.atom "try", e] => do pure (.try (← toExpr e))
+  | .list [.atom "some", e] => do pure (.some (← toExpr e))
+  | .list [.atom "none"] => some .none
+  | .list (.atom "ctor" :: .atom k :: args) => do pure (.ctor (← k.toNat?) (← toExprs args))
+  | .list (.atom "record" :: fs) => do pure (.record (← toExprs fs))
+  | .list [.atom "field", e, .atom i] => do pure (.field (← toExpr e) (← i.toNat?))
+  | .list (.atom "list" :: es) => do pure (.list (← toExprs es))
+  | .list (.atom "fstr" :: ps) => do pure (.fstr (← toParts ps))
+  | .list [.atom "concat", l, r] => do pure (.concat (← toExpr l) (← toExpr r))
+  | _ => none
+
+partial def toExprs : List Sexp → Option Exprs
+  | [] => some .nil
+  | x :: xs => do pure (.cons (← toExpr x) (← toExprs xs))
+
+partial def toItems : List Sexp → Option Block
+  | [] => some .nil
+  | [.list [.atom "last", e]] => do pure (.last (← toExpr e))
+  | .list [.atom "let", .atom x, e] :: rest => do pure (.let_ (← x.toNat?) (← toExpr e) (← toItems rest))
+  | .list [.atom "do", e] :: rest => do pure (.stmt (← toExpr e) (← toItems rest))
+  | _ => none
+
+partial def toBlock : Sexp → Option Block
+  | .list (.atom "blk" :: items) => toItems items
+  | _ => none
+
+partial def toArms : List Sexp → Option Arms
+  | [] => some .nil
+  | .list [.atom "arm", p, b] :: rest => do pure (.arm (← toPat p) (← toBlock b) (← toArms rest))
+  | .list [.atom "armg", p, g, b] :: rest => do pure (.armG (← toPat p) (← toExpr g) (← toBlock b) (← toArms rest))
+  | _ => none
+
+partial def toParts : List Sexp → Option Parts
+  | [] => some .nil
+  | .list [.atom "s", .atom h] :: rest => do
+    let s ← hexString (h.drop 1).toString
+    pure (.str s (← toParts rest))
+  | .list [.atom "e", e] :: rest => do pure (.expr (← toExpr e) (← toParts rest))
+  | _ => none
+end
+
+def toFn : Sexp → Option FnDef
+  | .list [.atom "fn", .list ps, b] => do
+    let ps ← natList ps
+    let b ← toBlock b
+    pure ⟨ps, b⟩
+  | _ => none
+
+def toFns : List Sexp → Option (List FnDef)
+  | [] => some []
+  | x :: xs => do pure ((← toFn x) :: (← toFns xs))
+
+def toProg : Sexp → Option (List FnDef)
+  | .list (.atom "prog" :: fns) => toFns fns
+  | _ => none
+
+def hexOf (s : String) : String :=
+  let digit (n : Nat) : Char := if n < 10 then Char.ofNat (48 + n) else Char.ofNat (87 + n)
+  s.toUTF8.toList.foldl (fun acc b => (acc.push (digit (b.toNat / 16))).push (digit (b.toNat % 16))) ""
+
+def showInts (xs : List Int) : String := "[" ++ ";".intercalate (xs.map toString) ++ "]"
+
+def showVal : Val → String
+  | .int v => toString v
+  | .bool b => if b then "true" else "false"
+  | .unit => "u"
+  | .str s => "s" ++ hexOf s
+  | .opt none => "none"
+  | .opt (some v) => "some:" ++ toString v
+  | .enm k fs => s!"enm{k}" ++ showInts fs
+  | .recd fs => "rec" ++ showInts fs
+  | .list xs => showInts xs
+  | .verdict true v => "acc:" ++ toString v
+  | .verdict false v => "rej:" ++ toString v
+
+def showEvent (e : Event) : String :=
+  toString e.fn ++ "(" ++ ",".intercalate (e.args.map showVal) ++ ")"
+
+def showRun (r : Run) : String :=
+  let o := match r.result with
+    | .ok v => "ok " ++ showVal v
+    | .ret v => "ok " ++ showVal v
+    | .fuel => "fuel"
+    | .stuck w => "stuck " ++ w.replace " " "_"
+  o ++ " ;" ++ String.join (r.tr.map (fun e => " " ++ showEvent e))
+
+def parseTuple (s : String) : Option (List Val) :=
+  match s.splitOn "," with
+  | [a, b, c] => do
+    let a ← a.toInt?
+    let b ← b.toInt?
+    let c ← if c = "1" then some true else if c = "0" then some false else none
+    pure [.int a, .int b, .bool c]
+  | _ => none
+
+def tuples : List String → Option (List (List Val))
+  | [] => some []
+  | t :: ts => do pure ((← parseTuple t) :: (← tuples ts))
+
+def parseProg (hexs : String) : Option (List FnDef) := do
+  let bytes ← unhex hexs
+  let text ← String.fromUTF8? (ByteArray.mk bytes.toArray)
+  let (sx, _) ← parseSexp (tokens text)
+  toProg sx
+
+/-! ### `c08 mir`: the structured lowering model as a CFG (raw blocks; the harness
+    canonicalises this and the real compiler's MIR dump the same way) -/
+
+open RotoV.LowerS in
+def showVar : Var → String
+  | .x n => s!"x{n}"
+  | .t n => s!"t{n}"
+
+/-- the variant a `SetDiscriminant` names, from the blank value the model carries -/
+def variantName : Val → String
+  | .opt (some _) => "Some"
+  | .opt none => "None"
+  | .verdict true _ => "Accept"
+  | .verdict false _ => "Reject"
+  | .enm k _ => (["A", "B", "C"][k]?).getD s!"V{k}"
+  | _ => "?"
+
+/-- record R { a: i32, b: i32 } -/
+def fieldName (i : Nat) : String := (["a", "b", "c", "d"][i]?).getD s!"f{i}"
+
+/-- the variant a `cloneProj` tag names: 0/1 = Some/None, 10+k = variant k of `E` -/
+def tagName (tag : Nat) : String :=
+  if tag == 0 then "Some" else if tag == 1 then "None" else (["A", "B", "C"][tag - 10]?).getD s!"V{tag}"
+
+def opName : BinOp → String
+  | .add => "Add" | .sub => "Sub" | .mul => "Mul" | .eq => "Eq" | .ne => "Ne"
+  | .lt => "Lt" | .le => "Le" | .gt => "Gt" | .ge => "Ge"
+
+def hostName (f : Nat) : String :=
+  (["emit", "emit_b", "emit_u", "emit_s", "emit_o", "mix", "emit3", "emit_l"][f]?).getD s!"host{f}"
+
+def showLit : Val → String
+  | .int v => s!"int:{v}"
+  | .bool b => s!"bool:{b}"
+  | .unit => "unit"
+  | .str s => "str:" ++ hexOf s
+  | v => "lit:" ++ showVal v
+
+open RotoV.LowerS in
+def showValue : Value → String
+  | .const v => "const " ++ showLit v
+  | .clone x => "clone " ++ showVar x
+  | .move x => "move " ++ showVar x
+  | .binop l op r => s!"binop {showVar l} {opName op} {showVar r}"
+  | .not x => "not " ++ showVar x
+  | .neg x => "neg " ++ showVar x
+  | .callRt f args => s!"callrt {hostName f} " ++ " ".intercalate (args.map showVar)
+  | .listNew => "callrt new "
+  | .listGet l i => s!"callrt get {showVar l} {showVar i}"
+  | .idxAdd a b => s!"binop {showVar a} Add {showVar b}"
+  | .toStr x => "callrt to_string " ++ showVar x
+  | .append a b => s!"callrt append {showVar a} {showVar b}"
+  | .call f args => s!"call f{f} " ++ " ".intercalate (args.map showVar)
+  | .disc x => "disc " ++ showVar x
+  | .cloneProj x i tag => s!"clone {showVar x}.{tagName tag}#{i}"
+  | .cloneField x i => s!"clone {showVar x}.{fieldName i}"
+
+/-- CFG under construction: finished/open blocks (instructions reversed) and the current block. -/
+structure Cfg where
+  blocks : Array (List String) := #[[]]
+  cur : Nat := 0
+  /-- the variant each enum temporary was last set to (names the projection of a field assignment) -/
+  variants : List (String × String) := []
+
+namespace Cfg
+def push (g : Cfg) (i : String) : Cfg := { g with blocks := g.blocks.modify g.cur (i :: ·) }
+def newBlock (g : Cfg) : Cfg × Nat := ({ g with blocks := g.blocks.push [] }, g.blocks.size)
+def goto (g : Cfg) (l : Nat) : Cfg := { g with cur := l }
+end Cfg
+
+open RotoV.LowerS in
+mutual
+partial def emitStm (g : Cfg) : Stm → Cfg
+  | .assign x v => g.push s!"a {showVar x} = {showValue v}"
+  | .ret x => g.push s!"r {showVar x}"
+  | .setDisc x blank =>
+    let g := { g with variants := (showVar x, variantName blank) :: g.variants }
+    -- the empty record a record temporary starts from is the model's own (no MIR instruction)
+    if variantName blank == "?" then g else g.push s!"d {showVar x} {variantName blank}"
+  | .assignField x i v =>
+    let vn := ((g.variants.find? (·.1 == showVar x)).map (·.2)).getD "?"
+    if vn == "?" then g.push s!"a {showVar x}.{fieldName i} = {showValue v}"
+    else g.push s!"a {showVar x}.{vn}#{i} = {showValue v}"
+  | .iteD x k thn els =>
+    -- `switch x [k => then] else default`; an empty branch is the continuation itself
+    let (g, lthen) := if thn.isEmpty then (g, 0) else g.newBlock
+    let (g, lelse) := if els.isEmpty then (g, 0) else g.newBlock
+    let (g, lcont) := g.newBlock
+    let tthen := if thn.isEmpty then lcont else lthen
+    let telse := if els.isEmpty then lcont else lelse
+    let g := g.push s!"s {showVar x} {k} {tthen} {telse}"
+    let g := if thn.isEmpty then g else (emitCode (g.goto lthen) thn).push s!"j {lcont}"
+    let g := if els.isEmpty then g else (emitCode (g.goto lelse) els).push s!"j {lcont}"
+    g.goto lcont
+  | .push alias _ elem u => g.push s!"a {showVar u} = callrt push {showVar alias} {showVar elem}"
+  | .forL cond d body incr =>
+    -- `jump cond`; increment block; condition block `switch d [0 => body] else cont`; body `jump incr`
+    let (g, lincr) := g.newBlock
+    let (g, lcond) := g.newBlock
+    let (g, lbody) := g.newBlock
+    let (g, lcont) := g.newBlock
+    let g := g.push s!"j {lcond}"
+    let g := (emitCode (g.goto lincr) incr).push s!"j {lcond}"
+    let g := (emitCode (g.goto lcond) cond).push s!"s {showVar d} 0 {lbody} {lcont}"
+    let g := (emitCode (g.goto lbody) body).push s!"j {lincr}"
+    g.goto lcont
+  | .mtch d chains dflt arms =>
+    -- arm blocks first (so that chains can name them), then the continuation, then the chains
+    let (g, armLbls) := arms.foldl (fun (acc : Cfg × List Nat) _ => let (g, l) := acc.1.newBlock; (g, acc.2 ++ [l])) (g, [])
+    let (g, lcont) := g.newBlock
+    let armLbl := fun (a : Nat) => (armLbls[a]?).getD 9999
+    -- switch d [k => chain_k …] else default
+    let (g, chainLbls) := chains.foldl (fun (acc : Cfg × List (Nat × Nat)) ch =>
+      match ch with
+      | .mk k _ => let (g, l) := acc.1.newBlock; (g, acc.2 ++ [(k, l)])) (g, [])
+    let (g, ldflt) := if dflt.isEmpty then (g, 9999) else g.newBlock
+    let branches := " ".intercalate (chainLbls.map (fun p => s!"{p.1}:{p.2}"))
+    let g := g.push s!"m {showVar d} {if dflt.isEmpty then "-" else toString ldflt} {branches}"
+    let g := (chains.zip chainLbls).foldl (fun g p =>
+      match p.1 with
+      | .mk _ steps =>
+        let (g, l0) := g.newBlock
+        emitChain (((g.goto p.2.2).push s!"j {l0}").goto l0) armLbl steps) g
+    let g := if dflt.isEmpty then g else
+      let (g, l0) := g.newBlock
+      emitChain (((g.goto ldflt).push s!"j {l0}").goto l0) armLbl dflt
+    let g := (arms.zip armLbls).foldl (fun g p => (emitCode (g.goto p.2) p.1).push s!"j {lcont}") g
+    g.goto lcont
+  | .ite x k thn els =>
+    let kn := if k then 1 else 0
+    let (g, lthen) := g.newBlock
+    if els.isEmpty then
+      -- `switch x [k => then] else cont`
+      let (g, lcont) := g.newBlock
+      let g := g.push s!"s {showVar x} {kn} {lthen} {lcont}"
+      let g := emitCode (g.goto lthen) thn
+      let g := g.push s!"j {lcont}"
+      g.goto lcont
+    else
+      let (g, lelse) := g.newBlock
+      let (g, lcont) := g.newBlock
+      let g := g.push s!"s {showVar x} {kn} {lthen} {lelse}"
+      let g := emitCode (g.goto lthen) thn
+      let g := g.push s!"j {lcont}"
+      let g := emitCode (g.goto lelse) els
+      let g := g.push s!"j {lcont}"
+      g.goto lcont
+  | .whl cond ex body =>
+    let (g, lcond) := g.newBlock
+    let (g, lbody) := g.newBlock
+    let (g, lcont) := g.newBlock
+    let g := g.push s!"j {lcond}"
+    let g := emitCode (g.goto lcond) cond
+    let g := g.push s!"s {showVar ex} 1 {lbody} {lcont}"
+    let g := emitCode (g.goto lbody) body
+    let g := g.push s!"j {lcond}"
+    g.goto lcont
+partial def emitCode (g : Cfg) : List Stm → Cfg
+  | [] => g
+  | s :: rest => emitCode (emitStm g s) rest
+/-- `match_case`: the chain's entry block jumps to the first guard block; every link is a
+    block (binds; then `jump arm` or guard code + `switch g [1 => arm] else next`); the block
+    after the last link is never created (label `9999`, unreachable when the match is exhaustive). -/
+partial def emitChain (g : Cfg) (armLbl : Nat → Nat) : List GStep → Cfg
+  | [] => g.push "j 9999"
+  | .plain binds a :: rest =>
+    let g := emitCode g binds
+    let g := g.push s!"j {armLbl a}"
+    -- later links are dead blocks: lowered (they took temporaries), not reachable
+    let (g, l) := g.newBlock
+    emitChain (g.goto l) armLbl rest
+  | .guarded binds gcode gv a :: rest =>
+    let g := emitCode g binds
+    let g := emitCode g gcode
+    -- `switch g [1 => arm] else guard_i_drop`; `guard_i_drop: (drops) jump guard_{i+1}`
+    let (g, ldrop) := g.newBlock
+    let (g, lnext) := g.newBlock
+    let g := g.push s!"s {showVar gv} 1 {armLbl a} {ldrop}"
+    let g := (g.goto ldrop).push s!"j {lnext}"
+    emitChain (g.goto lnext) armLbl rest
+end
+
+open RotoV.LowerS in
+/-- `ok <tmp_idx> | <block 0> | <block 1> …`, instructions separated by `;` — or `outside` when
+    the function is not in the modelled fragment. -/
+def showMir (fd : FnDef) : String :=
+  match lowerBlock fd.body 0 with
+  | none => "outside"
+  | some (cb, xb, c) =>
+    let g := emitCode {} (cb ++ [.ret xb])
+    s!"ok {c} | " ++ " | ".intercalate (g.blocks.toList.map (fun b => ";".intercalate b.reverse))
+
+def handle (args : List String) : String :=
+  match args with
+  | "run" :: hexs :: fuel :: ts =>
+    match parseProg hexs, fuel.toNat?, tuples ts with
+    | some fns, some fuel, some ts =>
+      " | ".intercalate (ts.map (fun t => showRun (run fns fuel t)))
+    | none, _, _ => "bad-program"
+    | _, _, _ => "bad-op"
+  | ["mir", hexs] =>
+    -- one answer per function, in definition order (the last one is main)
+    match parseProg hexs with
+    | some fns => " || ".intercalate (fns.map showMir)
+    | none => "bad-program"
+  | _ => "bad-op"
 
 end Driver.C08
